@@ -29,6 +29,8 @@ def main():
     ap.add_argument("checks", nargs="*")
     args, rest = ap.parse_known_args()
     checks = [c for c in args.checks + rest if c != "--"]
+    if args.patch:
+        checks = [c for c in (args.file, args.old, args.new) if c] + checks
     scratch = tempfile.mkdtemp(prefix="rnamut_")
     try:
         shutil.copytree("/repo/src", os.path.join(scratch, "src"))
